@@ -399,6 +399,156 @@ def stream_deferred(ctx):
     ctx.count("deferred_150_then_between", n150)
 
 
+# ------------------------------------------------------------------------------------------------------------
+# (p) PIPELINED login commands (several commands in one write) with user managers that do / do not suspend
+P_USERS = [
+    {"login": "alice", "password": "alicepw", "home": "/pub"},
+    {"login": "admin", "password": "adminpw", "home": "/adm"},
+    {"login": "bob", "password": None, "home": "/bob"},
+]
+P_UMS = {
+    "default": (None, None),        # MemoryUserManager as shipped: no coroutine of it ever suspends
+    "slow-auth": (0.1, None),       # authenticate() really waits (database / PAM / network lookup)
+    "slow-both": (0.1, 0.1),        # get_user() waits too
+    "slow-lookup": (None, 0.1),
+}
+P_BURSTS = [
+    [("PASS", "alicepw"), ("USER", "admin")],
+    [("PASS", "alicepw"), ("USER", "admin"), ("PWD", "")],
+    [("PASS", "alicepw"), ("USER", "alice")],
+    [("PASS", "alicepw"), ("USER", "bob")],
+    [("PASS", "alicepw"), ("USER", "nobody")],
+    [("PASS", "wrong"), ("USER", "admin")],
+    [("PASS", "wrong"), ("PASS", "alicepw")],
+    [("PASS", "alicepw"), ("PASS", "wrong")],
+    [("USER", "admin"), ("PASS", "alicepw")],
+    [("USER", "admin"), ("PASS", "adminpw")],
+    [("USER", "admin"), ("PASS", "adminpw"), ("USER", "alice")],
+    [("USER", "bob"), ("USER", "admin"), ("PASS", "x")],
+    [("PASS", "alicepw"), ("USER", "admin"), ("PASS", "alicepw")],
+    [("PASS", "alicepw"), ("PWD", ""), ("USER", "admin"), ("PWD", "")],
+]
+
+
+def suspending_um(users, auth_delay, lookup_delay):
+    class UM(aioftp.MemoryUserManager):
+        """MemoryUserManager whose coroutines really suspend, as any manager backed by a database or a service does"""
+
+        async def authenticate(self, user, password):
+            if auth_delay:
+                await asyncio.sleep(auth_delay)
+            return await super().authenticate(user, password)
+
+        async def get_user(self, login):
+            if lookup_delay:
+                await asyncio.sleep(lookup_delay)
+            return await super().get_user(login)
+
+    return UM(users)
+
+
+def run_pipelined(um_name, pre, burst):
+    log = []
+    ob = {"pre": []}
+
+    async def main(net):
+        server = ftpsim.make_server(P_USERS, D_TREE, "memory", None, wait_future_timeout=1)
+        a, l = P_UMS[um_name]
+        if a or l:
+            server.user_manager = suspending_um(list(server.user_manager.users), a, l)
+        server.path_io_factory.factory = spy_factory(log)
+        await server.start("127.0.0.1", ftpsim.PORT)
+        s = ftpsim.Session(net, server)
+        await s.start()
+        raw = s.raw
+        for v, a_ in pre:
+            lines = await raw.send(f"{v} {a_}".rstrip())
+            if not simnet.final_codes(lines):  # the user manager is still thinking: one command at a time means waiting for it
+                await asyncio.sleep(1)
+                lines += await raw.drain_replies()
+            ob["pre"].append(simnet.final_codes(lines))
+        mark = len(log)
+        raw.writer.write("".join(f"{v} {a_}".rstrip() + "\r\n" for v, a_ in burst).encode())
+        await asyncio.sleep(3)
+        ob["codes"] = simnet.final_codes(await raw.drain_replies())
+        ob["probe"] = s.probe()
+        ob["calls"] = log[mark:]
+        mark = len(log)
+        pw = await raw.send("PWD")
+        ob["pwd_codes"] = simnet.final_codes(pw)
+        ob["pwd"] = pw[-1][4:].strip().strip('"') if ob["pwd_codes"] == ["257"] else None
+        ob["ended"] = raw.eof
+        await server.close()
+
+    try:
+        simnet.run(main)
+    except Exception as e:  # noqa: BLE001
+        ob["error"] = repr(e)
+    return ob
+
+
+def pipelined_oracle(pre, burst, ob):
+    """pipelined commands are still a SEQUENCE of commands: the login rule applies to them in the order sent.
+    Judged: the state the burst leaves behind (who is identified, whether logged in), never the reply texts."""
+    if "error" in ob:
+        return [("driver-error", ob["error"])]
+    st = (None, False)
+    for v, a in list(pre) + list(burst):
+        st = login_oracle(P_USERS, st, v, a)
+    pr = ob["probe"]
+    if pr is None:
+        return []
+    bad = []
+    want = (P_USERS[st[0]]["login"] if st[0] is not None else None, st[1])
+    got = (pr["user"] if pr["has_user"] else None, pr["logged"])
+    if got[1]:
+        # logged in: as whom, and was THAT user's password supplied after that user was named?
+        u = next((x for x in P_USERS if x["login"] == got[0]), None)
+        supplied = False
+        named = False
+        for v, a in list(pre) + list(burst):
+            if v == "USER":
+                named = a == got[0]
+                supplied = named and u is not None and u["password"] is None
+            elif v == "PASS" and named and u is not None and u["password"] == a:
+                supplied = True
+        if u is None or not supplied:
+            bad.append(("authorised-without-password", f"{pre} then {burst} in ONE write: logged in as {got[0]!r} ({ob['pwd']}), whose password was not supplied after naming that user"))
+    # C03 is a safety property: only states MORE authorised than the rule allows are violations (a pipelined PASS that
+    # is turned down because the USER before it is still being looked up is a conformance matter, not an authorisation)
+    if not bad and got[1] and (not want[1] or got[0] != want[0]):
+        bad.append(("authorised-beyond-rule", f"{pre} then {burst} in one write: rule {want}, server {got}"))
+    if not st[1] and not got[1] and ob["pwd_codes"] == ["257"]:
+        bad.append(("command-succeeded-before-login", "PWD answered 257"))
+    return bad
+
+
+def stream_pipelined(ctx):
+    pre = [("USER", "alice")]
+    n = 0
+    for um in P_UMS:
+        for burst in P_BURSTS:
+            ctx.case(("pipelined", um, repr(burst)))
+            ctx.traces_impl += 1
+            n += 1
+            ob = run_pipelined(um, pre, burst)
+            for kind, detail in pipelined_oracle(pre, burst, ob):
+                verbs = [v for v, _ in burst]
+                # one mechanism, one key: a USER handled while an earlier PASS of the same write is still being answered
+                overtaken = any(v == "PASS" and "USER" in verbs[i + 1:] for i, v in enumerate(verbs))
+                if overtaken:
+                    shape = "user-handled-during-pass"
+                elif verbs.count("USER") >= 2:
+                    shape = "user-handled-during-user"
+                else:
+                    shape = "-".join(v.lower() for v in verbs)
+                tag = "default-um" if um == "default" else "suspending-um"
+                report(ctx, f"property oracle (pipelined login, user manager {um}): {detail}",
+                       {"key": f"c03-pipelined-{tag}-{shape}", "kind": kind, "pipelined": True, "um": um, "pre": [list(x) for x in pre],
+                        "burst": [list(x) for x in burst], "codes": ob.get("codes")})
+    ctx.count("pipelined_sessions", n)
+
+
 _reported = {}
 
 
@@ -416,7 +566,12 @@ def correspondence(ctx, budget=None):
         "command histories over {USER known/unknown/password-less/password-protected/anonymous, PASS right/wrong/empty} x every other verb "
         "(fixed argument) x the data-connect pseudo-event: all histories of length <= 2 (quick) / <= 3 (thorough) followed by a probe verb, "
         "plus random histories of length <= 14, on two user tables (anonymous absent/present); the real server runs with a spying "
-        "MemoryPathIO subclass (every backend call logged) and the listener ledger of simnet. Non-trivial = distinct history."
+        "MemoryPathIO subclass (every backend call logged) and the listener ledger of simnet. (d) sessions with commands BETWEEN the "
+        "150 mark of LIST/MLSD/RETR/STOR/APPE and the arrival of its data connection (USER again to 331/530/230-as-somebody-else, full "
+        "re-login, CWD), for three issuing logins and four not-logged-in prefixes: what is served must be the object the ISSUING login was "
+        "entitled to, nothing for a session that never logged in. (p) login commands PIPELINED in one write under the shipped user manager "
+        "and under subclasses whose authenticate()/get_user() really suspend: the state left behind must be the login rule's. "
+        "Non-trivial = distinct history."
     )
     others = [(v, "d" if v not in ("REST", "TYPE", "PROT", "PBSZ", "EPSV", "PASV", "ABOR", "SYST", "PWD", "CDUP") else {"REST": "3", "TYPE": "I", "PROT": "P", "PBSZ": "0"}.get(v, "")) for v in VERBS]
     alpha = [(v, a, None) for v, a in LOGINS] + [(v, a, (b"x" if v in ("STOR", "APPE") else None)) for v, a in others]
@@ -457,6 +612,10 @@ def correspondence(ctx, budget=None):
     ctx.extra["vm_compute_crosscheck"] = {"cases": len(xcheck), "agree": ok}
     if not ok:
         ctx.obligation_broken("extraction-crosscheck", out)
+    if budget is None:
+        _reported.clear()
+        stream_deferred(ctx)
+        stream_pipelined(ctx)
 
 
 def search(ctx):
@@ -471,6 +630,27 @@ def search(ctx):
 
 def replay(ctx, data):
     r = data.get("replay", {})
+    if r.get("deferred"):
+        xfer = (r["xfer"][0], r["xfer"][1], r["xfer"][2].encode("latin-1") if r["xfer"][2] is not None else None)
+        between = [tuple(b) for b in r["between"]]
+        ob = run_deferred(D_LOGINS[r["login"]], xfer, between)
+        bad = deferred_oracle(D_LOGINS[r["login"]], xfer, between, ob)
+        print(D_LOGINS[r["login"]], "PASV", xfer[:2], "->", ob.get("codes"), "| between", between, "->", [b["codes"] for b in ob.get("between", [])],
+              "| data connection ->", ob.get("data"), ob.get("after"), "| serving calls", ob.get("calls_serving"))
+        for k, d in bad:
+            print("  ", k, ":", d)
+            ctx.violation(d, dict(r))
+        return not bad
+    if r.get("pipelined"):
+        pre = [tuple(x) for x in r["pre"]]
+        burst = [tuple(x) for x in r["burst"]]
+        ob = run_pipelined(r["um"], pre, burst)
+        bad = pipelined_oracle(pre, burst, ob)
+        print("user manager", r["um"], "|", pre, "then in one write", burst, "->", ob.get("codes"), "| state", ob.get("probe"), "| PWD", ob.get("pwd_codes"), ob.get("pwd"))
+        for k, d in bad:
+            print("  ", k, ":", d)
+            ctx.violation(d, dict(r))
+        return not bad
     if "history" not in r:
         print(data)
         return False
